@@ -65,10 +65,15 @@ def run(R):
             R.check(b.dominates(cb, bb), 'C12.R2', 'interceptor-before-inner', site(b, bb), 'the interceptor runs before the inner service')
             arg = b.origin(t['args'][1])
             R.check(is_call(strip_refs(arg), name='into_http'), 'C12.R2', 'inner-gets-rebuilt-request', site(b, bb), 'inner.call argument = %s' % show(arg)[:100])
-        st = b.calls(pat='ResponseFuture::<F>::status')
-        R.check(len(st) == 1, 'C12.R2', 'reject-arm', site(b), 'ResponseFuture::status sites: %d' % len(st))
-        for bb, t in st:
-            a = b.origin(t['args'][0])
+        st = [(bb, b.origin(t['args'][0])) for bb, t in b.calls(pat='ResponseFuture::<F>::status')]
+        # or the future built inline: ResponseFuture { kind: Kind::Status(Some(status)) }
+        for bb, i, p, a, ops in mirlib.aggregates(b):
+            if (a.get('adt') or '').endswith('interceptor::Kind') and a.get('variant') == 'Status':
+                sv = strip_refs(b.origin(ops[0]))
+                if sv[0] == 'agg' and sv[1].get('variant') == 'Some':
+                    st.append((bb, sv[2][0]))
+        R.check(len(st) == 1, 'C12.R2', 'reject-arm', site(b), 'reject-arm constructions (ResponseFuture::status or Kind::Status(Some(..))): %d' % len(st))
+        for bb, a in st:
             okv = term_contains(a, lambda x: x and x[0] == 'variant' and x[2] == 'Err') and term_contains(a, lambda x: is_call(x, name='call') and 'Interceptor' in x[1])
             R.check(okv, 'C12.R2', 'reject-same-status', site(b, bb), 'status = %s' % show(a)[:120])
             g = b.edge_guards(bb)
